@@ -151,6 +151,30 @@ def traverse_case(case):
     _, seed = case
     rnd = random.Random(seed)
     nodes = gen_tree(rnd)
+    if seed % 3 == 0:
+        # the same URL at several positions (a sprite, a font file): every OCCURRENCE is a URL of the sheet
+        same = {}
+
+        def ren(u):
+            if u not in same:
+                same[u] = rnd.choice(['sprite.png', 'f.woff', u, u])
+            return same[u]
+
+        def rec(ns):
+            out = []
+            for n in ns:
+                if n[0] == 'import':
+                    out.append(('import', ren(n[1])))
+                elif n[0] in ('style', 'fontface'):
+                    out.append((n[0], [ren(u) for u in n[1]]))
+                elif n[0] == 'page':
+                    out.append(('page', [ren(u) for u in n[1]], [[ren(u) for u in m] for m in n[2]]))
+                elif n[0] == 'media':
+                    out.append(('media', rec(n[1])))
+                else:
+                    out.append(n)
+            return out
+        nodes = rec(nodes)
     text = render(rnd, nodes)
     sheet = cp.CSSParser(fetcher=lambda u: (None, '')).parseString(text, href='http://h/s.css')
     exp = expected(nodes)
@@ -161,16 +185,18 @@ def traverse_case(case):
     seen = []
     repl = {}
 
+    returned = []
+
     def replacer(u):
         seen.append(u)
-        repl[u] = rnd_url(rnd) + str(len(seen))
-        return repl[u]
+        returned.append(rnd_url(rnd) + str(len(seen)))        # (a new value for every occurrence)
+        return returned[-1]
     cp.replaceUrls(sheet, replacer)
     if seen != exp:
         return 'replaceUrls of %r called the replacer with %r, the sheet holds %r' % (text, seen, exp)
     after = list(cp.getUrls(sheet))
-    if after != [repl[u] for u in exp]:
-        return 'after replaceUrls getUrls yields %r, expected %r' % (after, [repl[u] for u in exp])
+    if after != returned:
+        return 'after replaceUrls getUrls yields %r, the replacer returned %r' % (after, returned)
     # imports optional
     sheet2 = cp.CSSParser(fetcher=lambda u: (None, '')).parseString(text, href='http://h/s.css')
     seen2 = []
